@@ -47,7 +47,9 @@ def run_program(image, ops, mount=None, model=None, on_step=None, stop_on_disagr
                 step["model"] = canon(list(mres))
                 if canon(list(ires)) != canon(list(mres)):
                     d = {"at": i, "op": op, "impl": canon(list(ires)), "model": canon(list(mres))}
-                else:
+                elif ires[0] == "ok":
+                    # (writes of a FAILED op are not compared: the model's error monad drops the partial
+                    #  state; that they touch nothing visible is judged by the tree / fsck oracles)
                     wd = compare_writes(iw, mw)
                     if wd:
                         d = {"at": i, "op": op, "writes": wd}
